@@ -569,6 +569,30 @@ static void space_extreme(void)
 		if (o.hang) vf_viol("c13-zero-progress-loop", "%s: header-less input", KIND_NAME[kind]);
 		vf_nontrivial(vf_mix(n, kind));
 	}
+	/* a compressed size that, taken as a signed 32-bit number, is minus the header length (or minus a few bytes): a skip that went
+	 * backwards would present the same member again and again; whatever follows the one header, at most one member exists */
+	for (level = 0; level <= 2; ++level)
+	for (k = 0; k < 8; ++k)
+	for (kind = 0; kind < K_COUNT; ++kind) {
+		ref_hdr f;
+		size_t n;
+		obs_t o;
+		static const int back[8] = { 0, 1, 2, 5, 22, 24, 31, 64 };     /* 0: exactly the header length */
+		if (!vf_case("level-%d member whose compressed size is 2^32 minus %s%d, 8 bytes of data, %s", level, back[k] ? "" : "the header length + ", back[k], KIND_NAME[kind])) continue;
+		memset(&f, 0, sizeof f);
+		f.level = level; memcpy(f.method, "-lh0-", 5); f.name = (const uint8_t *) "BACK"; f.name_len = level <= 1 ? 4 : 0; f.area = (const uint8_t *) "";
+		if (level == 2) { f.ext[0].type = 1; f.ext[0].data = (const uint8_t *) "BACK"; f.ext[0].len = 4; f.next = 1; }
+		f.packed = 0; f.size = 8;
+		n = ref_hdr_encode(&f, buf, sizeof buf);
+		f.packed = (uint32_t) (0u - (uint32_t) (back[k] ? (size_t) back[k] : n));
+		n = ref_hdr_encode(&f, buf, sizeof buf);
+		memset(buf + n, 0x33, 8);
+		walk(kind, buf, n + 8, 0, 0, &o);
+		if (o.hang) vf_viol("c13-zero-progress-loop", "%s: member with a compressed size just below 2^32", KIND_NAME[kind]);
+		if (o.members > 1) vf_viol("c13-work-not-bounded", "%s: %d members returned from an input of %zu bytes that holds one header", KIND_NAME[kind], o.members, n + 8);
+		vf_outcome(vf_mix(o.members, kind));
+		vf_nontrivial(vf_mix(level * 8 + k, 8800 + kind));
+	}
 	/* many archives one after another in one process, each ending inside a level-3 header that declares 1 MiB (or inside a
 	 * member): the bound is on the heap in use, whatever was handled before */
 	for (kind = 0; kind < K_COUNT; ++kind)
@@ -599,20 +623,22 @@ static void space_extreme(void)
 		static uint8_t vs[4096], vp[4096];
 		for (mi = 0; mi < 14; ++mi)
 		for (k = 0; k < 6; ++k)
-		for (mode = 0; mode < 5; ++mode) {
+		for (mode = 0; mode < 6; ++mode) {
 			ref_hdr f;
-			size_t n, dl = mode == 0 ? 0 : mode == 3 ? 1 : 2, vl = 0;
+			size_t n, dl = mode == 0 ? 0 : mode == 3 ? 1 : mode == 5 ? 6 : 2, vl = 0;
 			obs_t o;
 			/* mode 3: the single byte 0x04; mode 4: a valid stream of the method that holds 300 bytes */
 			if (mode == 4) { dl = make_stream(ALL_METHODS[mi], 300, 9, vs, sizeof vs, vp, sizeof vp, &vl); if (!dl) continue; }
-			if (mode >= 3 && k < 3) continue;
-			if (!vf_case("%s member declaring %u bytes with %zu bytes of %s data", ALL_METHODS[mi], decl[k], dl, mode == 2 ? "0xFF" : mode == 3 ? "0x04" : mode == 4 ? "valid (300 bytes encoded)" : "zero")) continue;
+			if ((mode == 3 || mode == 4) && k < 3) continue;
+			if (mode == 5 && k != 0 && k != 5) continue;
+			if (!vf_case("%s member declaring %u bytes with %zu bytes of %s data", ALL_METHODS[mi], decl[k], dl, mode == 2 ? "0xFF" : mode == 3 ? "0x04" : mode == 4 ? "valid (300 bytes encoded)" : mode == 5 ? "00 01 0f ff ff ff (input ends inside a unary field)" : "zero")) continue;
 			memset(&f, 0, sizeof f);
 			f.level = 2; memcpy(f.method, ALL_METHODS[mi], 5); f.name = f.area = (const uint8_t *) "";
 			f.ext[0].type = 1; f.ext[0].data = (const uint8_t *) "endless"; f.ext[0].len = 7; f.next = 1;
 			f.packed = (uint32_t) dl; f.size = decl[k];
 			n = ref_hdr_encode(&f, buf, sizeof buf);
-			if (mode == 4) memcpy(buf + n, vs, dl); else memset(buf + n, mode == 2 ? 0xFF : mode == 3 ? 0x04 : 0, dl);
+			if (mode == 4) memcpy(buf + n, vs, dl); else memset(buf + n, mode == 2 || mode == 5 ? 0xFF : mode == 3 ? 0x04 : 0, dl);
+			if (mode == 5) { buf[n] = 0x00; buf[n + 1] = 0x01; buf[n + 2] = 0x0F; }
 			if (k >= 3) {
 				/* a small declared length, zero included, is a limit like any other: the test walk must return too */
 				walk(K_SKIPFAIL, buf, n + dl, 2, 4096, &o);
